@@ -159,9 +159,16 @@ def _run_case(case, ctx):
         else:
             k = int(rs.randint(1, order + 1))
             modes = sorted(rs.choice(order, size=k, replace=False).tolist())
-            spec = "list"
-            rank = [int(rs.randint(1, X.shape[m] + 2)) for m in modes]
-            exp = [min(r, X.shape[m]) for r, m in zip(rank, modes)]
+            spec = gen.choice(rs, ["list", "list", "list", "none", "int"])
+            if spec == "none":      # documented: "the decomposition will preserve the original size" of the listed modes
+                rank = None
+                exp = [X.shape[m] for m in modes]
+            elif spec == "int":     # one int for all listed modes
+                rank = int(rs.randint(1, 6))
+                exp = [min(rank, X.shape[m]) for m in modes]
+            else:
+                rank = [int(rs.randint(1, X.shape[m] + 2)) for m in modes]
+                exp = [min(r, X.shape[m]) for r, m in zip(rank, modes)]
             (core, fs), _errs = D.partial_tucker(X, rank, modes=modes, n_iter_max=n_iter, init=init, tol=tolv, svd=svd, random_state=seed)
             rep_rank = None
         desc = {"gen": g, "shape": list(X.shape), "rank_spec": rank, "modes": modes, "init": init, "n_iter_max": n_iter, "tol": tolv, "svd": svd, "dtype": "complex128" if cplx else dt}
